@@ -323,6 +323,7 @@ func verMonitor(ops, impl []string) []Violation {
 	stored := map[string][]string{}            // "node/idx" -> token fields as passed to StoreLogs
 	corrupted := map[string]bool{}             // node -> at-rest corruption active
 	trig, rel := map[string]int{}, map[string]int{}
+	lastEnd := map[string]uint64{} // per node: end of the range of the last report the verifier goroutine received
 	lastVget := map[string]string{}
 	magic := "03a59203d6f9d1af"
 	for i, op := range ops {
@@ -378,6 +379,7 @@ func verMonitor(ops, impl []string) []Violation {
 			corrupted[ws[1]] = false
 		case "restart":
 			trig[ws[1]], rel[ws[1]] = 0, 0
+			lastEnd[ws[1]] = 0
 			for k := range expect {
 				if strings.HasPrefix(k, ws[1]+"/") {
 					delete(expect, k)
@@ -420,6 +422,9 @@ func verMonitor(ops, impl []string) []Violation {
 				if strings.HasPrefix(errc, "mismatch") {
 					add("C16", "checksum mismatch reported although every entry of the range is stored and read back as the leader wrote it", out, i)
 				}
+				if errc == "mismatch-inflight" {
+					add("C17", "in-flight corruption blamed although the node wrote exactly what the leader checksummed", out, i)
+				}
 			case "mismatch":
 				if !strings.HasPrefix(errc, "mismatch") {
 					add("C17", "an altered entry inside a fully held, verified range was not reported as a checksum mismatch", out, i)
@@ -438,6 +443,20 @@ func verMonitor(ops, impl []string) []Violation {
 			}
 			if strings.Contains(out, "next-not-picked-up") {
 				add("C18", "a queued checkpoint was never picked up after the previous report returned", out, i)
+			}
+			// SkippedRange names exactly the gap between the previous checkpoint the verifier received on this node
+			// (whatever the outcome of that verification) and this range — and is absent when there is no gap
+			if len(f) >= 8 {
+				start, end := atoiU(f[1]), atoiU(f[2])
+				want := "-"
+				if le := lastEnd[ws[1]]; le > 0 && le != start {
+					want = fmt.Sprintf("%d..%d", le, start)
+				}
+				if f[7] != want {
+					add("C18", "the report after dropped checkpoints does not name the skipped range (or names one although nothing was skipped)",
+						fmt.Sprintf("node %s: report [%d,%d) carries SkippedRange %s, expected %s (previous received range ended at %d)", ws[1], start, end, f[7], want, lastEnd[ws[1]]), i)
+				}
+				lastEnd[ws[1]] = end
 			}
 		case "vmetrics":
 			if !strings.HasPrefix(out, "cp=") || ws[len(ws)-1] != "final" {
@@ -845,7 +864,11 @@ func genVerCase(r *Rng, id string) *Case {
 	for i := 0; i < steps; i++ {
 		g.step()
 	}
-	// drain: release everything, then account
+	return g.finish(id)
+}
+
+// finish: release everything, read back, account; build the case
+func (g *vgen) finish(id string) *Case {
 	for n := uint64(0); n < g.nn; n++ {
 		for k := 0; k < 3; k++ {
 			g.do(fmt.Sprintf("release %d", n))
@@ -868,6 +891,187 @@ func genVerCase(r *Rng, id string) *Case {
 	return c
 }
 
+// genVerBoundaryCase: a leadership change whose truncation on the follower ends exactly at the index where the
+// follower's running checksum starts (its last entry is an uncommitted checkpoint C of the deposed leader; the new
+// leader held entries up to C-1, restarted, and appends from C). Nothing is corrupted anywhere: no mismatch may be
+// reported, least of all one blaming the follower for having written something else.
+func genVerBoundaryCase(r *Rng, id string) *Case {
+	g := &vgen{r: r, impl: &verImpl{nodes: map[uint64]*vnode{}}, tags: map[string]bool{"boundary-truncation": true, "leader-change": true, "restart": true}, truth: map[uint64]*raft.Log{},
+		last: map[uint64]uint64{}, first: map[uint64]uint64{}, dirty: map[uint64]map[uint64]string{}, term: 1}
+	defer g.impl.cleanup()
+	g.nn = 3
+	for n := uint64(0); n < g.nn; n++ {
+		g.do(fmt.Sprintf("node %d", n))
+	}
+	g.tLast = pick(r, []uint64{0, 0, 6})
+	catchUp := func(f uint64) {
+		for k := 0; k < 40 && g.last[f] < g.tLast; k++ {
+			g.replicate(f, false)
+		}
+	}
+	releaseAll := func() {
+		for n := uint64(0); n < g.nn; n++ {
+			for k := 0; k < 3; k++ {
+				g.do(fmt.Sprintf("release %d", n))
+			}
+		}
+	}
+	g.appendLeader(3+r.Intn(4), r.Bool())
+	catchUp(1)
+	catchUp(2)
+	releaseAll()
+	// the checkpoint C reaches node 1 only
+	g.appendLeader(1, true)
+	c := g.tLast
+	catchUp(1)
+	releaseAll()
+	// node 2 (log up to C-1) restarts and becomes leader; nodes 0 and 1 drop C
+	g.do("restart 2")
+	g.leader = 2
+	g.term++
+	g.tLast = g.last[2]
+	for _, n := range []uint64{0, 1} {
+		if g.last[n] >= c {
+			g.do(fmt.Sprintf("vdel %d %d %d", n, c, g.last[n]))
+			g.last[n] = c - 1
+			for i := range g.dirty[n] {
+				if i >= c {
+					delete(g.dirty[n], i)
+				}
+			}
+		}
+	}
+	for i := range g.truth {
+		if i > g.tLast {
+			delete(g.truth, i)
+		}
+	}
+	g.appendLeader(2+r.Intn(3), false)
+	g.appendLeader(1, true)
+	catchUp(1)
+	catchUp(0)
+	releaseAll()
+	g.appendLeader(1+r.Intn(3), true)
+	catchUp(1)
+	catchUp(0)
+	return g.finish(id)
+}
+
+// blockingDeleteStore: a LogStore whose DeleteRange can be held open (raft compacts the log from its snapshot goroutine
+// while the main loop keeps appending)
+type blockingDeleteStore struct {
+	raft.LogStore
+	hold    chan struct{} // non-nil: DeleteRange waits on it after signalling entered
+	entered chan struct{}
+}
+
+func (b *blockingDeleteStore) DeleteRange(min, max uint64) error {
+	if b.hold != nil {
+		b.entered <- struct{}{}
+		<-b.hold
+	}
+	return b.LogStore.DeleteRange(min, max)
+}
+
+// verConcurrentCompaction: a head compaction of the follower's log is in flight (inside the underlying store) while
+// appends are stored; the next checkpoint must still verify cleanly — every entry of the range is what the leader wrote.
+func verConcurrentCompaction(r *Rng) []Violation {
+	var viols []Violation
+	steps := []string{"leader: entries 1..9, checkpoint 10; follower replicates and verifies", "leader: entries 11..15; follower stores 11..13",
+		"follower: DeleteRange(1,5) enters the underlying store and is held there (compaction on another goroutine)", "follower: StoreLogs(14,15) completes meanwhile",
+		"DeleteRange released", "leader: checkpoint 16; follower stores it and verifies [10,16)"}
+	mk := func(under raft.LogStore) (*verifier.LogStore, chan verifier.VerificationReport) {
+		ch := make(chan verifier.VerificationReport, 16)
+		return verifier.NewLogStore(under, isCPFn, func(rp verifier.VerificationReport) { ch <- rp }, metrics.NewAtomicCollector(verifier.MetricDefinitions)), ch
+	}
+	lUnder := raft.NewInmemStore()
+	leader, lch := mk(lUnder)
+	fUnder := &blockingDeleteStore{LogStore: raft.NewInmemStore(), entered: make(chan struct{}, 1)}
+	follower, fch := mk(fUnder)
+	defer leader.Close()
+	defer follower.Close()
+	entry := func(i uint64, cp bool) *raft.Log {
+		l := &raft.Log{Index: i, Term: 1, Type: raft.LogCommand, Data: r.Bytes(10 + r.Intn(20))}
+		if cp {
+			l.Data = []byte("CP")
+		} else if len(l.Data) >= 2 && l.Data[0] == 'C' {
+			l.Data[0] = 'x'
+		}
+		return l
+	}
+	lead := func(from, to uint64, cpAt uint64) {
+		var b []*raft.Log
+		for i := from; i <= to; i++ {
+			b = append(b, entry(i, i == cpAt))
+		}
+		leader.StoreLogs(b)
+	}
+	repl := func(from, to uint64) error {
+		var b []*raft.Log
+		for i := from; i <= to; i++ {
+			var l raft.Log
+			if err := lUnder.GetLog(i, &l); err != nil {
+				return err
+			}
+			b = append(b, &l)
+		}
+		return follower.StoreLogs(b)
+	}
+	wait := func(ch chan verifier.VerificationReport) *verifier.VerificationReport {
+		select {
+		case rp := <-ch:
+			return &rp
+		case <-time.After(5 * time.Second):
+			return nil
+		}
+	}
+	lead(1, 10, 10)
+	wait(lch)
+	repl(1, 10)
+	if rp := wait(fch); rp == nil || rp.Err != nil {
+		return nil // set-up did not behave as expected: nothing to conclude here
+	}
+	lead(11, 15, 0)
+	repl(11, 13)
+	fUnder.hold = make(chan struct{})
+	done := make(chan error, 1)
+	go func() { done <- follower.DeleteRange(1, 5) }()
+	select {
+	case <-fUnder.entered:
+	case <-time.After(5 * time.Second):
+		return nil
+	}
+	stored := make(chan error, 1)
+	go func() { stored <- repl(14, 15) }()
+	select {
+	case err := <-stored:
+		if err != nil {
+			return nil
+		}
+	case <-time.After(2 * time.Second):
+		// the middleware serialises DeleteRange and StoreLogs: no overlap is possible, nothing to check
+		close(fUnder.hold)
+		<-done
+		<-stored
+		return nil
+	}
+	close(fUnder.hold)
+	<-done
+	fUnder.hold = nil
+	lead(16, 16, 16)
+	wait(lch)
+	repl(16, 16)
+	rp := wait(fch)
+	if rp == nil {
+		return append(viols, Violation{Property: "C18", What: "a checkpoint produced no report", Ops: steps})
+	}
+	if rp.Err != nil {
+		viols = append(viols, Violation{Property: "C16", What: "checksum mismatch reported although every entry of the range is stored as the leader wrote it (head compaction concurrent with appends)",
+			Detail: rp.Err.Error(), Ops: steps})
+	}
+	return viols
+}
+
 func suiteVerifier(seed uint64, tier string) *Report {
 	rep := newReport("verifier", seed, tier)
 	rep.Rule = "multi-node histories (2–3 nodes) through the real verifier.LogStore over the real WAL: leader appends with checkpoints, replication of arbitrary slices in arbitrary batch splits, leadership changes that truncate conflicting suffixes, head truncations, middleware restarts, in-flight alterations of single fields, at-rest alterations returned by the store, foreign Extensions, a ReportFn the harness blocks and releases at chosen points; every delivered report (range, sums, error class, skipped range), every stored entry and the counters compared with Model.Verifier; plus single-entry checksums (field order / FNV-1a) via the `sum` op. Non-trivial = at least one of: corruption injected, leader change, truncation, restart, dropped/queued report; distinct by feature set, node count and length class."
@@ -879,6 +1083,15 @@ func suiteVerifier(seed uint64, tier string) *Report {
 	var cases []*Case
 	for i := 0; i < n; i++ {
 		cases = append(cases, genVerCase(r.Fork(), fmt.Sprintf("ver-%d-%d", seed, i)))
+	}
+	rep.Violations = append(rep.Violations, verConcurrentCompaction(r.Fork())...)
+	rep.Dist["concurrent-compaction-scenario"]++
+	nb := 6
+	if tier == "thorough" {
+		nb = 60
+	}
+	for i := 0; i < nb; i++ {
+		cases = append(cases, genVerBoundaryCase(r.Fork(), fmt.Sprintf("ver-boundary-%d-%d", seed, i)))
 	}
 	// single-entry checksum cases
 	sc := &Case{ID: fmt.Sprintf("ver-sum-%d", seed), Props: []string{"C16", "C17"}, Exec: execVerifier, NonTrivial: true, Shape: "sum"}
